@@ -69,6 +69,8 @@ def uses_args(t):
 def run(ctx):
     core = ctx.core
     S.TEMPLATES = None
+    # look through helpers extracted from the arms (free functions of blots-core called by path)
+    S.INLINE = lambda d: core.hir.get(d) if (d or "").startswith("blots_core::") and core.hir.get(d, {}).get("kind") == "Fn" else None
     ctx.not_decided += ["the numerical laws themselves (rounding, permutation invariance up to rounding, monotonicity of percentile): runtime quantities", "that f64::min/max/sum behave as documented (std)"]
     f = core.hir_fn(BCALL)
     m = H.matches_on(f["body"], "functions::BuiltInFunction")[0]
@@ -99,6 +101,14 @@ def run(ctx):
         got = [x[1] for x in vals]
         ctx.inst("C15.R3", "%s#reduction" % name, got == REDUCTION[name], "computes %s; documented %s" % ([S.show(v) for v in got], [S.show(v) for v in REDUCTION[name]]), H.loc(a["body"]))
         ctx.inst("C15.R3", "%s#empty-is-error" % name, len(guards) == 1, "`if nums.is_empty() { return Err }` before the reduction: %s" % (len(guards) == 1), H.loc(a["body"]))
+    # ---- R4 both calling conventions are admitted by the arity table
+    ctx.rule("C15.R4", "the arity table admits both calling conventions for each of min max avg sum prod median: any number of arguments >= 1 (one list, one number, or several numbers)", floor=6)
+    from rules import c01
+    ar = c01.arity_table(core)
+    for name in AGG:
+        row = ar.get(name)
+        ctx.inst("C15.R4", "arity[%s]" % name, row == ("AtLeast", 1, None), "arity row %s (a narrower row rejects `%s(a, b, c)` or `%s(...list)` before the arm runs)" % (row, name.lower(), name.lower()), None)
+
     # ---- R2 mirror pair
     ctx.rule("C15.R2", "min and max are mirror images: same shape with (INFINITY, f64::min) <-> (NEG_INFINITY, f64::max)", floor=1)
     if "Min" in parts and "Max" in parts:
